@@ -16,6 +16,7 @@ import (
 	"net/http/httptest"
 	"os"
 	"path/filepath"
+	"runtime/debug"
 	"sort"
 	"strings"
 	"sync"
@@ -557,6 +558,12 @@ func newModel(label, sid string, id desync.ChunkID, data []byte) *model {
 
 func run(c Case) (o hx.Outcome) {
 	defer quietStderr()()
+	// keep what was collected before a panic (hx would report the panic alone)
+	defer func() {
+		if r := recover(); r != nil {
+			o.Fail("panic", "[build %s: desync=%s other=%s] panic: %v\n%s", buildName, desyncImpl, other.Name(), r, debug.Stack())
+		}
+	}()
 	data := content(c)
 	sum := sha512.Sum512_256(data) // independent of desync.Digest
 	id := desync.ChunkID(sum)
@@ -802,7 +809,11 @@ func run(c Case) (o hx.Outcome) {
 	dfd := frameDesc("desync-frame", desyncFrame)
 	ofd := frameDesc("other-frame", otherFrame)
 	if crossEntropy {
-		o.Class("cross-decode:entropy-coded")
+		o.Class("cross-decode:entropy-coded", "cross-decode:entropy-coded@"+buildName)
+	}
+	// the replay file does not say which of the two builds failed: put it into every message
+	for i := range o.Violations {
+		o.Violations[i].Msg = fmt.Sprintf("[build %s: desync=%s other=%s] %s", buildName, desyncImpl, other.Name(), o.Violations[i].Msg)
 	}
 	o.Nontrivial = crossEntropy || m2.everBoth
 	o.Desc = map[string]any{"build": buildName, "desync": desyncImpl, "other": other.Name(), "len": len(data), "fill": c.Fill,
@@ -826,11 +837,7 @@ func required() []string {
 		"cross-decode:entropy-coded",
 	}
 	r = append(r, "build:desync="+desyncImpl+",other="+other.Name())
-	// When the driver has built the second configuration too (plan entry extra_builds
-	// "datadog"), its results are merged into the same evidence: require them.
-	if os.Getenv("VERIF_BIN_DATADOG") != "" {
-		r = append(r, "build:desync=libzstd,other=klauspost", "build:desync=klauspost,other=libzstd")
-	}
+	// (the driver checks the required classes separately for each build)
 	return r
 }
 
